@@ -459,3 +459,9 @@ MANIFEST_ENTRY = dict(
          'size, forwarded dimensions); blank answers never contact the upstream; tile sources are only asked for in-grid tiles.',
     note='Same-SRS coverage and query (reprojection is pyproj FFI: outside); configurations enumerated; client is a stub.',
 )
+
+# --- manifest text refreshed after rounds 6-8 (obligations added since the entry above was written)
+MANIFEST_ENTRY['text'] = MANIFEST_ENTRY['text'] + ' Resolution range: the source is contacted only if neither axis resolution of a (possibly stretched) request is excluded -- both axis resolutions are solver variables.'
+MANIFEST_ENTRY['note'] = 'Coverage and query in the same SRS, or related by an axis-aligned affine stub (reprojection is pyproj FFI: outside); polygon coverages as an L-shaped union of rectangles; configurations enumerated; client is a stub.'
+META['assumptions'] = list(META.get('assumptions', [])) + ["resolution range: 'the resolution of the request' is read per axis -- the source may only be contacted if neither axis resolution is excluded (the pinned behaviour)"]
+META['bounds'] = META.get('bounds', '') + '; stretched requests: both axis resolutions any real in [0.01, 10000]'
